@@ -36,7 +36,7 @@ Reqs == ReqsFor(N)
 \* how many messages a subscriber receives before it stops receiving (-1 = all)
 TakeAll == {-1}
 TakeQuick == {-1, 1}
-TakeThorough == {-1, 0, 1, 2}
+TakeThorough == {-1, 0, 2}
 
 Step(a) == nOps < MaxOps /\ nOps' = nOps + 1 /\ last' = a
 
